@@ -58,6 +58,11 @@ def strip(lines):
 def check(run):
     thorough = run.tier == 'thorough'
     rng = run.rng
+    try:
+        import gen_lex
+        gen_lex.startcond_table()            # regenerates coq/theories/gen/Gen_StartCond.v from lexer.l
+    except Exception as e:
+        run.tie_broken('G-LEX: start conditions of lexer.l', str(e))
     pr = run.proofs()
     # ---- tie of the grammar facts State.v relies on ---------------------------------------------------------------------
     try:
